@@ -3,13 +3,20 @@
 #pragma once
 #include "drv_ext.hpp"
 #include "drv_map.hpp"
+#include "drv_conv.hpp"
 #include <vector>
 #include <array>
 
 namespace drv {
 
 // ---- accessors ------------------------------------------------------------------------------------
-template <class T> struct handle_t { T *p = nullptr; int tag = 0; };
+template <class T> struct handle_t {
+  T *p = nullptr; int tag = 0;
+  handle_t() noexcept = default;
+  handle_t(T *q, int t) noexcept : p(q), tag(t) {}
+  template <class U, class = std::enable_if_t<std::is_convertible<U (*)[], T (*)[]>::value>>
+  handle_t(const handle_t<U> &o) noexcept : p(o.p), tag(o.tag) {}
+};
 
 struct LogRec { long tag, id; long long off; };
 inline std::vector<LogRec> &acc_log() { static std::vector<LogRec> l; return l; }
